@@ -155,16 +155,24 @@ impl<'a> EntryTree<'a> {
             return;
         }
 
-        // Find the matching tree to insert the group into.
-        for subtree in tree {
-            match subtree {
-                EntryTree::Parent { raw_name, group: slot, .. }
-                    if group.meta.raw_name == *raw_name =>
-                {
-                    *slot = Some(group);
-                    return;
+        // `module_path!()` drops the `r#` prefix of a raw identifier that is
+        // not a keyword, whereas the group's `raw_name` always has it.
+        let name = group.meta.raw_name;
+        let unprefixed = name.strip_prefix("r#").unwrap_or(name);
+
+        // Find the matching tree to insert the group into, preferring the
+        // exact spelling.
+        for candidate in [name, unprefixed] {
+            for subtree in tree.iter_mut() {
+                match subtree {
+                    EntryTree::Parent { raw_name, group: slot, .. }
+                        if *raw_name == candidate =>
+                    {
+                        *slot = Some(group);
+                        return;
+                    }
+                    _ => {}
                 }
-                _ => {}
             }
         }
     }
